@@ -54,6 +54,13 @@ pub struct FileConfig {
     persist_dir: Option<PathBuf>,
 }
 
+/// Convert an integer read from the YAML file to the setting's type, refusing values the
+/// type cannot represent instead of silently wrapping them (`port: 70000` must not run as 4464).
+fn int_setting<T: TryFrom<i64>>(key: &str, value: i64) -> Result<T, Error> {
+    T::try_from(value)
+        .map_err(|_| Error::InvalidConfiguration(format!("{} value {} is out of range", key, value)))
+}
+
 impl FileConfig {
     pub fn new(config_file: &str) -> Result<Self, Error> {
         let mut infile = File::open(config_file)
@@ -90,9 +97,11 @@ impl FileConfig {
 
         for (key, value) in cfg[0].as_hash().unwrap() {
             match key.as_str().unwrap() {
-                "port" => config.port = value.as_i64().unwrap() as u16,
+                "port" => config.port = int_setting("port", value.as_i64().unwrap())?,
                 "interface" => config.interface = value.as_str().unwrap().to_string(),
-                "batch_size" => config.batch_size = value.as_i64().unwrap() as u8,
+                "batch_size" => {
+                    config.batch_size = int_setting("batch_size", value.as_i64().unwrap())?
+                }
                 "seed" => {
                     let val = value.as_str().unwrap().to_string();
                     config.seed = HEX
@@ -101,7 +110,8 @@ impl FileConfig {
                 }
                 "status_interval" => {
                     let val = value.as_i64().expect("status_interval value invalid");
-                    config.status_interval = Duration::from_secs(val as u64)
+                    config.status_interval =
+                        Duration::from_secs(int_setting("status_interval", val)?)
                 }
                 "kms_protection" => {
                     let val =
@@ -111,7 +121,7 @@ impl FileConfig {
                     config.kms_protection = val
                 }
                 "health_check_port" => {
-                    let val = value.as_i64().unwrap() as u16;
+                    let val = int_setting("health_check_port", value.as_i64().unwrap())?;
                     config.health_check_port = Some(val);
                 }
                 "client_stats" => {
@@ -123,11 +133,11 @@ impl FileConfig {
                     config.persist_dir = val;
                 }
                 "fault_percentage" => {
-                    let val = value.as_i64().unwrap() as u8;
+                    let val = int_setting("fault_percentage", value.as_i64().unwrap())?;
                     config.fault_percentage = val;
                 }
                 "num_workers" => {
-                    let val = value.as_i64().unwrap() as usize;
+                    let val = int_setting("num_workers", value.as_i64().unwrap())?;
                     config.num_workers = val;
                 }
                 unknown => {
